@@ -480,8 +480,10 @@ func checkSide(run *MixRun) {
 			e.Note("side.server-reached-no-handler")
 		}
 		chk("client", nCli, center, cexit, true)
-		chk("server", nSrv, senter, sexit, reached)
-		if r.HInvoked == 1 && nSrv > 0 {
+		if !run.ClientSideOnly {
+			chk("server", nSrv, senter, sexit, reached)
+		}
+		if r.HInvoked == 1 && nSrv > 0 && !run.ClientSideOnly {
 			// the handler observes the context after all transformations
 			want := ""
 			for i := 0; i < nCli; i++ {
@@ -512,6 +514,9 @@ func checkSide(run *MixRun) {
 			side := "client"
 			succeeded := false
 			expect := true
+			if h.side == 's' && run.ClientSideOnly {
+				continue
+			}
 			if h.side == 's' {
 				side = "server"
 				expect = reached
